@@ -73,7 +73,7 @@ class Engine:
             create_wire=2, create_wires=1, add_wire=1, remove_wire=1, remove_wires_from=1, set_wires=1,
             create_child=5, add_child=2, remove_child=2, remove_children_from=1, set_children=1,
             set_reference=4, connect_pin=10, disconnect_pin=4, disconnect_pins_from=2, set_wire_pins=1,
-            top_instance=2, set_top_instance=1, rename=4, data_edit=3, bundle_attr=1, clone_small=1,
+            top_instance=2, set_top_instance=1, rename=4, data_edit=3, bundle_attr=4, clone_small=1,
         )
         if profile == "mirror":
             for k in ("create_port", "add_port", "remove_port", "remove_ports_from", "create_pin", "create_pins",
@@ -96,6 +96,7 @@ class Engine:
             base["clone_small"] = 0
         if profile == "hostile":
             base["clone_small"] = 0
+            base["bundle_attr"] = 8
         return {k: v for k, v in base.items() if v > 0}
 
     # ------------------------------------------------------------------ driving
@@ -130,7 +131,8 @@ class Engine:
     def op_create_library(self):
         n = self.pick(self.u.netlists)
         nm = self.name() if self.r.random() < 0.8 else None
-        return Op("Netlist.create_library", lambda: n.create_library(nm), "create_library(%r)" % nm, "random", n, (nm,))
+        props = {"EDIF.identifier": self.pick(IDS)} if self.r.random() < 0.2 else None
+        return Op("Netlist.create_library", lambda: n.create_library(nm, props), "create_library(%r,%r)" % (nm, props), "random", n, (nm, props))
 
     def op_add_library(self):
         n = self.pick(self.u.netlists)
@@ -250,7 +252,8 @@ class Engine:
         if l is None:
             return None
         nm = self.name() if self.r.random() < 0.8 else None
-        return Op("Library.create_definition", lambda: l.create_definition(nm), "create_definition(%r)" % nm, "random", l, (nm,))
+        props = {"EDIF.identifier": self.pick(IDS)} if self.r.random() < 0.2 else None
+        return Op("Library.create_definition", lambda: l.create_definition(nm, props), "create_definition(%r,%r)" % (nm, props), "random", l, (nm, props))
 
     def op_add_definition(self):
         l = self.pick(self.u.libs)
@@ -305,8 +308,8 @@ class Engine:
             kw["lower_index"] = self.r.choice([0, 2])
         if self.r.random() < 0.2:
             kw["is_downto"] = self.r.choice([True, False])
-        if self.r.random() < 0.1:
-            kw["properties"] = self.r.choice([{"k": 1}, {"EDIF.identifier": self.pick(IDS)}])
+        if self.r.random() < 0.2:
+            kw["properties"] = self.r.choice([{"k": 1}, {"EDIF.identifier": self.pick(IDS)}, {"EDIF.identifier": self.pick(IDS)}])
         return Op("Definition.create_port", lambda: d.create_port(nm, pins=pins, **kw), "create_port(%r,pins=%r,%s)" % (nm, pins, sorted(kw)), "random", d, (nm, kw.get("properties")))
 
     def op_add_port(self):
@@ -415,7 +418,9 @@ class Engine:
             kw["lower_index"] = self.r.choice([0, 3])
         if self.r.random() < 0.1:
             kw["is_scalar"] = self.r.choice([True, False])
-        return Op("Definition.create_cable", lambda: d.create_cable(nm, wires=wires, **kw), "create_cable(%r,wires=%r)" % (nm, wires), "random", d, (nm,))
+        if self.r.random() < 0.2:
+            kw["properties"] = {"EDIF.identifier": self.pick(IDS)}      # an element that arrives with BOTH naming keys
+        return Op("Definition.create_cable", lambda: d.create_cable(nm, wires=wires, **kw), "create_cable(%r,wires=%r,%s)" % (nm, wires, sorted(kw)), "random", d, (nm, kw.get("properties")))
 
     def op_add_cable(self):
         d = self.pick(self.u.defs)
